@@ -253,31 +253,33 @@ theorem tie_src_core_BeaconProcess_GetIdentity : Gen.ScriptsC15.core_BeaconProce
 
 theorem tie_src_core_BeaconProcess_Status : Gen.ScriptsC15.core_BeaconProcess_Status = [
   "func (bp *BeaconProcess) Status(ctx context.Context, in *drand.StatusRequest) (*drand.StatusResponse, error) {",
-  " bp.state.RLock()",
-  " defer bp.state.RUnlock()",
   " dkgStatus := drand.DkgStatus{}",
   " beaconStatus := drand.BeaconStatus{}",
   " chainStore := drand.ChainStoreStatus{}",
   " beaconStatus.Status = uint32(BeaconNotInited)",
   " chainStore.IsEmpty = true",
-  " if bp.beacon != nil {",
-  "  beaconStatus.Status = uint32(BeaconInited)",
-  "  beaconStatus.IsStopped = bp.beacon.IsStopped()",
-  "  beaconStatus.IsRunning = bp.beacon.IsRunning()",
-  "  beaconStatus.IsServing = bp.beacon.IsServing()",
-  "  lastBeacon, err := bp.beacon.Store().Last(ctx)",
-  "  if err == nil && lastBeacon != nil {",
-  "   chainStore.IsEmpty = false",
-  "   chainStore.LastStored = lastBeacon.GetRound()",
-  "   chainStore.ExpectedLast = common.CurrentRound(bp.opts.clock.Now().Unix(), bp.group.Period, bp.group.GenesisTime)",
-  "  }",
-  " }",
   " nodeList := in.GetCheckConn()",
-  " if len(nodeList) == 1 && nodeList[0].Address == bp.priv.Public.Addr && bp.beacon != nil && bp.group != nil {",
-  "  for _, node := range bp.group.Nodes {",
-  "   nodeList = append(nodeList, &drand.Address{Address: node.Address()})",
+  " func() {",
+  "  bp.state.RLock()",
+  "  defer bp.state.RUnlock()",
+  "  if bp.beacon != nil {",
+  "   beaconStatus.Status = uint32(BeaconInited)",
+  "   beaconStatus.IsStopped = bp.beacon.IsStopped()",
+  "   beaconStatus.IsRunning = bp.beacon.IsRunning()",
+  "   beaconStatus.IsServing = bp.beacon.IsServing()",
+  "   lastBeacon, err := bp.beacon.Store().Last(ctx)",
+  "   if err == nil && lastBeacon != nil {",
+  "    chainStore.IsEmpty = false",
+  "    chainStore.LastStored = lastBeacon.GetRound()",
+  "    chainStore.ExpectedLast = common.CurrentRound(bp.opts.clock.Now().Unix(), bp.group.Period, bp.group.GenesisTime)",
+  "   }",
   "  }",
-  " }",
+  "  if len(nodeList) == 1 && nodeList[0].Address == bp.priv.Public.Addr && bp.beacon != nil && bp.group != nil {",
+  "   for _, node := range bp.group.Nodes {",
+  "    nodeList = append(nodeList, &drand.Address{Address: node.Address()})",
+  "   }",
+  "  }",
+  " }()",
   " resp := make(map[string]bool)",
   " for _, addr := range nodeList {",
   "  remoteAddress := addr.GetAddress()",
